@@ -16,12 +16,12 @@ import (
 // Lock/Unlock, including the unlock/relock around listener calls).
 func c04Races() {
 	type scen struct {
-		name           string
-		reg            univ.Regime
-		pre            string // label the node is pre-loaded to
-		a, c           string // labels submitted by threads A and (optional) C
-		polls, chunk   int
-		startSynced    bool
+		name         string
+		reg          univ.Regime
+		pre          string // label the node is pre-loaded to
+		a, c         string // labels submitted by threads A and (optional) C
+		polls, chunk int
+		startSynced  bool
 	}
 	scens := []scen{
 		{"reorg-vs-polls", univ.RegimeV2, "m4", "f1.6", "", 4, 2, false},
